@@ -58,8 +58,17 @@ fn mk_host(idx: usize, cfg: &Cfg, dir: &str, ext: Extensions) -> Host {
     h
 }
 
-fn request(hosts: &[&[u8]]) -> Option<FatRequest> {
-    let mut b = Request::builder().uri("/").method("GET");
+fn request(hosts: &[&[u8]], authority: Option<&[u8]>) -> Option<FatRequest> {
+    let uri = match authority {
+        Some(a) => {
+            let mut u = b"http://".to_vec();
+            u.extend_from_slice(a);
+            u.extend_from_slice(b"/");
+            Uri::try_from(&u[..]).ok()?
+        }
+        None => Uri::from_static("/"),
+    };
+    let mut b = Request::builder().uri(uri).method("GET");
     for h in hosts {
         b = b.header("host", HeaderValue::from_bytes(h).ok()?);
     }
@@ -92,12 +101,14 @@ fn query(coll: &HostCollection, cfgs: &[Cfg], probes: &[Probe], q: &X) -> Result
     let l = q.as_l().ok_or_else(X::bad)?;
     let kind = l.first().and_then(X::as_n).ok_or_else(X::bad)?;
     Ok(match (kind, l.len()) {
-        (0, 3) | (6, 3) => {
+        (0, 3) | (6, 3) | (7, 4) => {
             let sni = opt_str(&l[1])?;
             let hh: Vec<&[u8]> = l[2].as_l().ok_or_else(X::bad)?.iter().map(|h| h.as_b().ok_or_else(X::bad)).collect::<Result<_, _>>()?;
-            let req = request(&hh).ok_or_else(ood)?;
+            // kind 7: the request's URI has an authority (as the URI of an HTTP/2 request has)
+            let authority = if kind == 7 { Some(l[3].as_b().ok_or_else(X::bad)?) } else { None };
+            let req = request(&hh, authority).ok_or_else(ood)?;
             let r = coll.get_from_request(&req, sni.as_deref());
-            if kind == 0 {
+            if kind == 0 || kind == 7 {
                 host_res(r)
             } else {
                 // the host choice of handle_connection: None => 409; else re-lookup by the host's own name, unwrap
@@ -188,144 +199,553 @@ thread_local! {
 }
 
 // ---------------------------------------------------------------------------------------------
-// loopback histories
+// histories over loopback connections: plain HTTP/1.x, HTTP/1.1 over TLS, HTTP/2 over TLS
 // ---------------------------------------------------------------------------------------------
+//
+// hosts.wire   (L hosts reqs)
+//   hosts = (L (L default name (L alt...) opts) ...)   opts: bit 0 = built by `clone_without_extensions` of the host before it,
+//                                                            bit 1 = shares `Host::path` with host 0 (own public directory)
+//   req   = (L transport sni v10 method (L hosthdr...) authority path flags)
+//           transport 0 = plain TCP HTTP/1.x, 1 = TLS + HTTP/1.1 (ALPN http/1.1), 2 = TLS + HTTP/2 (ALPN h2)
+//           sni       (L) | (L name): the SNI the client sends (TLS only; none = the client connects "by IP address")
+//           v10       HTTP/1.0 request line (HTTP/1.x only; a connection of its own)
+//           authority (L) | (L bytes): `:authority` of an HTTP/2 request
+//           flags     bit 0 accept-encoding: gzip, bit 1 if-modified-since far in the future, bit 2 if-modified-since in the past
+//   reply = (L (N 0) (L (N 0)))          connection closed without an answer
+//         | (L (N 0) (L (N 1)))          the TLS handshake was refused
+//         | (L (N 0) (L (N 409)))  | (L (N 0) (L (N 304)))
+//         | (L (N 0) (L (N 200) host n)) marker of the host that answered and the invocation number of its handler
+//         | (L (N 0) (L (N 3) status))   another status
 static DIR_SEQ: AtomicU64 = AtomicU64::new(0);
+const T: Duration = Duration::from_secs(12);
+
+trait Io: tokio::io::AsyncRead + tokio::io::AsyncWrite + Unpin + Send + Sync {}
+impl<S: tokio::io::AsyncRead + tokio::io::AsyncWrite + Unpin + Send + Sync> Io for S {}
+
+/// harness trouble (not an outcome of the code): the whole case is reported as `(L (N 93) what)` and run again by the runner
+struct Trouble(String);
+type R<V> = Result<V, Trouble>;
+fn trouble<E: std::fmt::Display>(what: &'static str) -> impl Fn(E) -> Trouble {
+    move |e| Trouble(format!("{what}: {e}"))
+}
+
+mod tlsc {
+    use super::*;
+    use rustls::client::danger::{HandshakeSignatureValid, ServerCertVerified, ServerCertVerifier};
+    use rustls::pki_types::{CertificateDer, ServerName, UnixTime};
+    /// The hosts of a history all present the same self-signed certificate whatever their name: the client accepts it.
+    #[derive(Debug)]
+    struct AnyCert(Arc<rustls::crypto::CryptoProvider>);
+    impl ServerCertVerifier for AnyCert {
+        fn verify_server_cert(&self, _: &CertificateDer<'_>, _: &[CertificateDer<'_>], _: &ServerName<'_>, _: &[u8], _: UnixTime) -> Result<ServerCertVerified, rustls::Error> {
+            Ok(ServerCertVerified::assertion())
+        }
+        fn verify_tls12_signature(&self, m: &[u8], c: &CertificateDer<'_>, d: &rustls::DigitallySignedStruct) -> Result<HandshakeSignatureValid, rustls::Error> {
+            rustls::crypto::verify_tls12_signature(m, c, d, &self.0.signature_verification_algorithms)
+        }
+        fn verify_tls13_signature(&self, m: &[u8], c: &CertificateDer<'_>, d: &rustls::DigitallySignedStruct) -> Result<HandshakeSignatureValid, rustls::Error> {
+            rustls::crypto::verify_tls13_signature(m, c, d, &self.0.signature_verification_algorithms)
+        }
+        fn supported_verify_schemes(&self) -> Vec<rustls::SignatureScheme> {
+            self.0.signature_verification_algorithms.supported_schemes()
+        }
+    }
+    pub struct Tls {
+        pub key: Arc<rustls::sign::CertifiedKey>,
+        pub h1: Arc<rustls::ClientConfig>,
+        pub h2: Arc<rustls::ClientConfig>,
+    }
+    pub fn tls() -> &'static Tls {
+        static TLS: OnceLock<Tls> = OnceLock::new();
+        TLS.get_or_init(|| {
+            use rustls::pki_types::PrivateKeyDer;
+            let provider = Arc::new(rustls::crypto::ring::default_provider());
+            let ss = rcgen::generate_simple_self_signed(vec!["localhost".to_string()]).expect("self-signed certificate");
+            let cert = ss.cert.der().clone();
+            let pk = PrivateKeyDer::Pkcs8(ss.key_pair.serialized_der().to_vec().into());
+            let pk = rustls::crypto::ring::sign::any_supported_type(&pk).expect("key type");
+            let key = Arc::new(rustls::sign::CertifiedKey::new(vec![cert], pk));
+            let mk = |alpn: &[u8]| {
+                let mut c = rustls::ClientConfig::builder_with_provider(provider.clone())
+                    .with_safe_default_protocol_versions()
+                    .expect("versions")
+                    .dangerous()
+                    .with_custom_certificate_verifier(Arc::new(AnyCert(provider.clone())))
+                    .with_no_client_auth();
+                c.alpn_protocols = vec![alpn.to_vec()];
+                Arc::new(c)
+            };
+            Tls { key, h1: mk(b"http/1.1"), h2: mk(b"h2") }
+        })
+    }
+}
+
+#[derive(Clone)]
+struct WReq {
+    tr: u128,
+    sni: Option<String>,
+    v10: bool,
+    method: Vec<u8>,
+    hosts: Vec<Vec<u8>>,
+    authority: Option<Vec<u8>>,
+    path: Vec<u8>,
+    flags: u128,
+}
+
+enum Wire {
+    Closed,
+    NoTls,
+    Status(u16),
+    Marker(u128, u128),
+    /// an answer that is neither: the marker is malformed, or closure and `&Host` argument disagree
+    Odd(Vec<u8>),
+}
+impl Wire {
+    fn x(&self) -> X {
+        match self {
+            Wire::Closed => X::ok(X::L(vec![X::N(0)])),
+            Wire::NoTls => X::ok(X::L(vec![X::N(1)])),
+            Wire::Status(409) => X::ok(X::L(vec![X::N(409)])),
+            Wire::Status(304) => X::ok(X::L(vec![X::N(304)])),
+            Wire::Status(s) => X::ok(X::L(vec![X::N(3), X::n(*s)])),
+            Wire::Marker(h, n) => X::ok(X::L(vec![X::N(200), X::N(*h), X::N(*n)])),
+            Wire::Odd(b) => X::L(vec![X::N(92), X::b(b)]),
+        }
+    }
+}
+
+/// "handler c<i> h<i> n<k>" | "file f of host <i> h<i>"
+fn parse_marker(s: &[u8]) -> Wire {
+    let t = String::from_utf8_lossy(s).to_string();
+    let num = |p: char| t.split(' ').find_map(|w| w.strip_prefix(p).and_then(|d| d.parse::<u128>().ok()));
+    match (num('h'), num('c'), num('n')) {
+        (Some(h), Some(c), Some(n)) if h == c => Wire::Marker(h, n),
+        (Some(h), None, None) if t.starts_with("file ") => Wire::Marker(h, 0),
+        _ => Wire::Odd(s.to_vec()),
+    }
+}
+
+struct Reply {
+    status: u16,
+    marker: Option<Vec<u8>>,
+    encoding: Option<Vec<u8>>,
+    body: Vec<u8>,
+}
+fn classify_reply(r: Reply) -> Wire {
+    if r.status != 200 {
+        return Wire::Status(r.status);
+    }
+    if let Some(m) = r.marker {
+        // the body, when there is one, says the same as the header
+        if !r.body.is_empty() {
+            let (decoded, ok) = crate::c00pipe::decode_body(r.encoding.as_deref(), &r.body);
+            if !ok || decoded != m {
+                return Wire::Odd(r.body);
+            }
+        }
+        return parse_marker(&m);
+    }
+    let (decoded, ok) = crate::c00pipe::decode_body(r.encoding.as_deref(), &r.body);
+    if !ok {
+        return Wire::Odd(r.body);
+    }
+    parse_marker(&decoded)
+}
+
+enum Conn {
+    H1(Box<dyn Io>),
+    H2(h2::client::SendRequest<Bytes>),
+}
 
 struct Client {
-    stream: Option<tokio::net::TcpStream>,
-    desc: Arc<PortDescriptor>,
+    desc_plain: Arc<PortDescriptor>,
+    desc_tls: Arc<PortDescriptor>,
+    conns: std::collections::HashMap<(u128, Option<String>), Conn>,
 }
+
+enum Opened {
+    Conn(Conn),
+    NoTls,
+}
+
 impl Client {
-    async fn connect(&mut self) -> std::io::Result<()> {
-        let listener = tokio::net::TcpListener::bind("127.0.0.1:0").await?;
-        let addr = listener.local_addr()?;
-        let client = tokio::net::TcpStream::connect(addr).await?;
-        let (server_end, peer) = listener.accept().await?;
-        let desc = self.desc.clone();
+    async fn tcp(&self, secure: bool) -> R<tokio::net::TcpStream> {
+        let listener = tokio::net::TcpListener::bind("127.0.0.1:0").await.map_err(trouble("bind"))?;
+        let addr = listener.local_addr().map_err(trouble("addr"))?;
+        let client = tokio::net::TcpStream::connect(addr).await.map_err(trouble("connect"))?;
+        let (server_end, peer) = listener.accept().await.map_err(trouble("accept"))?;
+        let desc = if secure { self.desc_tls.clone() } else { self.desc_plain.clone() };
         tokio::spawn(async move {
             let _ = kvarn::handle_connection(kvarn::Incoming::Tcp(server_end), peer, desc, || true).await;
         });
-        self.stream = Some(client);
-        Ok(())
+        let _ = client.set_nodelay(true);
+        Ok(client)
     }
-    /// Sends one request; reads one framed response.  None = closed without an answer.
-    async fn exchange(&mut self, hosts: &[Vec<u8>], path: &[u8]) -> std::io::Result<Option<(u16, Vec<u8>)>> {
-        use tokio::io::{AsyncReadExt, AsyncWriteExt};
-        if self.stream.is_none() {
-            self.connect().await?;
+    async fn open(&self, r: &WReq) -> R<Opened> {
+        if r.tr == 0 {
+            return Ok(Opened::Conn(Conn::H1(Box::new(self.tcp(false).await?))));
         }
-        let s = self.stream.as_mut().unwrap();
-        let mut req = Vec::new();
-        req.extend_from_slice(b"GET ");
-        req.extend_from_slice(path);
-        req.extend_from_slice(b" HTTP/1.1\r\n");
-        for h in hosts {
-            req.extend_from_slice(b"Host: ");
-            req.extend_from_slice(h);
-            req.extend_from_slice(b"\r\n");
-        }
-        req.extend_from_slice(b"\r\n");
-        s.write_all(&req).await?;
-        let mut buf = Vec::new();
-        let mut tmp = [0u8; 4096];
-        let head_end;
-        loop {
-            if let Some(p) = buf.windows(4).position(|w| w == b"\r\n\r\n") {
-                head_end = p + 4;
-                break;
+        let cfg = if r.tr == 1 { tlsc::tls().h1.clone() } else { tlsc::tls().h2.clone() };
+        // a client that connects to an IP address sends no SNI
+        let name = match &r.sni {
+            Some(n) => rustls::pki_types::ServerName::try_from(n.clone()).map_err(|_| Trouble("OOD".into()))?,
+            None => rustls::pki_types::ServerName::IpAddress(std::net::IpAddr::from([127, 0, 0, 1]).into()),
+        };
+        // the server refuses the handshake (alert, or it closes the connection) deterministically: a handshake that fails is
+        // tried once more on a fresh connection, so that a connection lost under load is not taken for a refusal
+        let mut attempt = 0;
+        let s = loop {
+            let tcp = self.tcp(true).await?;
+            match tokio::time::timeout(T, tokio_rustls::TlsConnector::from(cfg.clone()).connect(name.clone(), tcp)).await {
+                Err(_) => return Err(Trouble("timeout: TLS handshake".into())),
+                Ok(Err(_)) if attempt == 0 => attempt += 1,
+                Ok(Err(_)) => return Ok(Opened::NoTls),
+                Ok(Ok(s)) => break s,
             }
-            let n = match tokio::time::timeout(Duration::from_secs(8), s.read(&mut tmp)).await {
-                Ok(Ok(n)) => n,
-                Ok(Err(e)) if e.kind() == std::io::ErrorKind::ConnectionReset => 0,
-                Ok(Err(e)) => return Err(e),
-                Err(_) => return Err(std::io::Error::new(std::io::ErrorKind::TimedOut, "no response head")),
-            };
-            if n == 0 {
-                self.stream = None;
-                return if buf.is_empty() { Ok(None) } else { Err(std::io::Error::new(std::io::ErrorKind::UnexpectedEof, "partial head")) };
+        };
+        let want: &[u8] = if r.tr == 1 { b"http/1.1" } else { b"h2" };
+        if s.get_ref().1.alpn_protocol() != Some(want) {
+            return Err(Trouble(format!("ALPN: negotiated {:?}", s.get_ref().1.alpn_protocol())));
+        }
+        if r.tr == 1 {
+            return Ok(Opened::Conn(Conn::H1(Box::new(s))));
+        }
+        let (send, conn) = tokio::time::timeout(T, h2::client::Builder::new().handshake::<_, Bytes>(s))
+            .await
+            .map_err(|_| Trouble("timeout: h2 handshake".into()))?
+            .map_err(trouble("h2 handshake"))?;
+        tokio::spawn(async move {
+            let _ = conn.await;
+        });
+        Ok(Opened::Conn(Conn::H2(send)))
+    }
+
+    async fn exchange(&mut self, r: &WReq) -> R<Wire> {
+        let key = (r.tr, r.sni.clone());
+        // an HTTP/1.0 exchange has a connection of its own
+        let reused = if r.v10 { None } else { self.conns.remove(&key) };
+        let was_reused = reused.is_some();
+        let conn = match reused {
+            Some(c) => c,
+            None => match self.open(r).await? {
+                Opened::NoTls => return Ok(Wire::NoTls),
+                Opened::Conn(c) => c,
+            },
+        };
+        let (w, keep) = self.exchange_on(conn, r).await?;
+        // a kept-alive connection may have been closed by the server since its last exchange: that is no answer to this request
+        let (w, keep) = if was_reused && matches!(w, Wire::Closed) {
+            match self.open(r).await? {
+                Opened::NoTls => return Ok(Wire::NoTls),
+                Opened::Conn(c) => self.exchange_on(c, r).await?,
             }
-            buf.extend_from_slice(&tmp[..n]);
-        }
-        let head = String::from_utf8_lossy(&buf[..head_end]).to_ascii_lowercase();
-        let status: u16 = head.split(' ').nth(1).and_then(|s| s.parse().ok()).unwrap_or(0);
-        let len: usize = head
-            .lines()
-            .find_map(|l| l.strip_prefix("content-length:").map(|v| v.trim().parse::<usize>().unwrap_or(0)))
-            .unwrap_or(0);
-        let close = head.lines().any(|l| l.starts_with("connection:") && l.contains("close"));
-        while buf.len() < head_end + len {
-            let n = match tokio::time::timeout(Duration::from_secs(8), s.read(&mut tmp)).await {
-                Ok(Ok(n)) => n,
-                Ok(Err(e)) => return Err(e),
-                Err(_) => return Err(std::io::Error::new(std::io::ErrorKind::TimedOut, "no response body")),
-            };
-            if n == 0 {
-                return Err(std::io::Error::new(std::io::ErrorKind::UnexpectedEof, "partial body"));
+        } else {
+            (w, keep)
+        };
+        if let Some(c) = keep {
+            if !r.v10 {
+                self.conns.insert(key, c);
             }
-            buf.extend_from_slice(&tmp[..n]);
         }
-        let body = buf[head_end..head_end + len].to_vec();
-        if close || status == 409 {
-            // the server closes after a 409; start the next request on a fresh connection
-            self.stream = None;
+        Ok(w)
+    }
+
+    async fn exchange_on(&mut self, conn: Conn, r: &WReq) -> R<(Wire, Option<Conn>)> {
+        match conn {
+            Conn::H1(mut s) => {
+                let (reply, keep) = h1_exchange(&mut s, r).await?;
+                match reply {
+                    None => Ok((Wire::Closed, None)),
+                    Some(rep) => {
+                        // the server closes after a 409
+                        let keep = keep && rep.status != 409;
+                        Ok((classify_reply(rep), if keep { Some(Conn::H1(s)) } else { None }))
+                    }
+                }
+            }
+            Conn::H2(send) => {
+                let mut uri = b"https://".to_vec();
+                uri.extend_from_slice(r.authority.as_deref().unwrap_or(b"localhost"));
+                uri.extend_from_slice(&r.path);
+                // (not expressible with this HTTP/2 client: out of domain)
+                let mut b = Request::builder().method(Method::from_bytes(&r.method).map_err(|_| Trouble("OOD".into()))?).uri(Uri::try_from(&uri[..]).map_err(|_| Trouble("OOD".into()))?);
+                for h in &r.hosts {
+                    b = b.header("host", HeaderValue::from_bytes(h).map_err(|_| Trouble("OOD".into()))?);
+                }
+                for (n, v) in extra_headers(r) {
+                    b = b.header(n, v);
+                }
+                let req = b.body(()).map_err(|_| Trouble("OOD".into()))?;
+                let mut send = match tokio::time::timeout(T, send.ready()).await {
+                    Err(_) => return Err(Trouble("timeout: h2 ready".into())),
+                    Ok(Err(_)) => return Ok((Wire::Closed, None)),
+                    Ok(Ok(s)) => s,
+                };
+                let (resp, _stream) = match send.send_request(req, true) {
+                    Ok(x) => x,
+                    Err(_) => return Ok((Wire::Closed, None)),
+                };
+                let resp = match tokio::time::timeout(T, resp).await {
+                    Err(_) => return Err(Trouble("timeout: h2 response head".into())),
+                    Ok(Err(_)) => return Ok((Wire::Closed, None)),
+                    Ok(Ok(r)) => r,
+                };
+                let (parts, mut body) = resp.into_parts();
+                let mut data = Vec::new();
+                loop {
+                    match tokio::time::timeout(T, body.data()).await {
+                        Err(_) => return Err(Trouble("timeout: h2 body".into())),
+                        Ok(None) => break,
+                        Ok(Some(Err(e))) => return Err(Trouble(format!("h2 body: {e}"))),
+                        Ok(Some(Ok(chunk))) => {
+                            let _ = body.flow_control().release_capacity(chunk.len());
+                            data.extend_from_slice(&chunk);
+                        }
+                    }
+                }
+                let status = parts.status.as_u16();
+                let rep = Reply {
+                    status,
+                    marker: parts.headers.get("x-marker").map(|v| v.as_bytes().to_vec()),
+                    encoding: parts.headers.get("content-encoding").map(|v| v.as_bytes().to_vec()),
+                    body: data,
+                };
+                Ok((classify_reply(rep), if status == 409 { None } else { Some(Conn::H2(send)) }))
+            }
         }
-        Ok(Some((status, body)))
     }
 }
 
-/// input: (L ops (L (L (L hosthdr...) path) ...))
-fn conn(x: &X) -> X {
+fn extra_headers(r: &WReq) -> Vec<(&'static str, String)> {
+    let mut v = Vec::new();
+    if r.flags & 1 != 0 {
+        v.push(("accept-encoding", "gzip".to_string()));
+    }
+    if r.flags & 2 != 0 {
+        v.push(("if-modified-since", "Fri, 01 Jan 2100 00:00:00 GMT".to_string()));
+    }
+    if r.flags & 4 != 0 {
+        v.push(("if-modified-since", "Mon, 01 Jan 1990 00:00:00 GMT".to_string()));
+    }
+    v
+}
+
+/// Sends one HTTP/1.x request; reads one framed response.  `None` = closed without an answer.  The flag: may be used again.
+async fn h1_exchange(s: &mut Box<dyn Io>, r: &WReq) -> R<(Option<Reply>, bool)> {
+    use tokio::io::{AsyncReadExt, AsyncWriteExt};
+    let mut req = Vec::new();
+    req.extend_from_slice(&r.method);
+    req.push(b' ');
+    req.extend_from_slice(&r.path);
+    req.extend_from_slice(if r.v10 { b" HTTP/1.0\r\n" } else { b" HTTP/1.1\r\n" });
+    for h in &r.hosts {
+        req.extend_from_slice(b"Host: ");
+        req.extend_from_slice(h);
+        req.extend_from_slice(b"\r\n");
+    }
+    for (n, v) in extra_headers(r) {
+        req.extend_from_slice(format!("{n}: {v}\r\n").as_bytes());
+    }
+    if r.method != b"GET" && r.method != b"HEAD" {
+        req.extend_from_slice(b"content-length: 0\r\n");
+    }
+    req.extend_from_slice(b"\r\n");
+    // a server that has closed already may reset the connection while we write: that is "closed", too
+    if s.write_all(&req).await.is_err() || s.flush().await.is_err() {
+        return Ok((None, false));
+    }
+    let mut buf = Vec::new();
+    let mut tmp = [0u8; 4096];
+    let head_end;
+    loop {
+        if let Some(p) = buf.windows(4).position(|w| w == b"\r\n\r\n") {
+            head_end = p + 4;
+            break;
+        }
+        let n = match tokio::time::timeout(T, s.read(&mut tmp)).await {
+            Ok(Ok(n)) => n,
+            // reset, or a TLS connection closed without close_notify
+            Ok(Err(_)) => 0,
+            Err(_) => return Err(Trouble("timeout: no response head".into())),
+        };
+        if n == 0 {
+            return if buf.is_empty() { Ok((None, false)) } else { Err(Trouble("partial response head".into())) };
+        }
+        buf.extend_from_slice(&tmp[..n]);
+    }
+    let head = String::from_utf8_lossy(&buf[..head_end]).to_string();
+    let lower = head.to_ascii_lowercase();
+    let status: u16 = head.split(' ').nth(1).and_then(|s| s.parse().ok()).unwrap_or(0);
+    let value = |name: &str| -> Option<Vec<u8>> {
+        head.lines().zip(lower.lines()).find_map(|(l, ll)| ll.strip_prefix(name).map(|_| l[name.len()..].trim().as_bytes().to_vec()))
+    };
+    let no_body = r.method == b"HEAD" || status == 304 || status == 204;
+    let len: usize = if no_body { 0 } else { value("content-length:").and_then(|v| String::from_utf8_lossy(&v).parse().ok()).unwrap_or(0) };
+    let close = r.v10 || lower.lines().any(|l| l.starts_with("connection:") && l.contains("close"));
+    while buf.len() < head_end + len {
+        let n = match tokio::time::timeout(T, s.read(&mut tmp)).await {
+            Ok(Ok(n)) => n,
+            Ok(Err(e)) => return Err(Trouble(format!("response body: {e}"))),
+            Err(_) => return Err(Trouble("timeout: no response body".into())),
+        };
+        if n == 0 {
+            return Err(Trouble("partial response body".into()));
+        }
+        buf.extend_from_slice(&tmp[..n]);
+    }
+    if buf.len() != head_end + len {
+        return Err(Trouble("bytes after the response".into()));
+    }
+    let rep = Reply { status, marker: value("x-marker:"), encoding: value("content-encoding:"), body: buf[head_end..].to_vec() };
+    Ok((Some(rep), !close))
+}
+
+fn parse_whosts(x: &X) -> Result<Vec<(Cfg, u128)>, X> {
+    let mut out = Vec::new();
+    for o in x.as_l().ok_or_else(X::bad)? {
+        let o = match o.as_l() {
+            Some(o) if o.len() == 4 => o,
+            _ => return Err(X::bad()),
+        };
+        let mut c = parse_ops(&X::L(vec![X::L(o[..3].to_vec())]))?;
+        out.push((c.remove(0), o[3].as_n().ok_or_else(X::bad)?));
+    }
+    Ok(out)
+}
+
+fn parse_wreq(x: &X) -> Result<WReq, X> {
+    let l = match x.as_l() {
+        Some(l) if l.len() == 8 => l,
+        _ => return Err(X::bad()),
+    };
+    let tr = l[0].as_n().filter(|t| *t <= 2).ok_or_else(X::bad)?;
+    let sni = opt_str(&l[1])?;
+    let v10 = l[2].as_bool().ok_or_else(X::bad)?;
+    let method = l[3].as_b().ok_or_else(X::bad)?.to_vec();
+    let mut hosts = Vec::new();
+    for h in l[4].as_l().ok_or_else(X::bad)? {
+        hosts.push(h.as_b().ok_or_else(X::bad)?.to_vec());
+    }
+    let authority = match l[5].as_opt() {
+        Some(a) => match a {
+            Some(a) => Some(a.as_b().ok_or_else(X::bad)?.to_vec()),
+            None => None,
+        },
+        None => return Err(X::bad()),
+    };
+    let path = l[6].as_b().ok_or_else(X::bad)?.to_vec();
+    let flags = l[7].as_n().ok_or_else(X::bad)?;
+    // what the model covers (Model/Hosts.v d_wreq)
+    if (tr == 0 && sni.is_some())
+        || (tr == 2 && (v10 || authority.is_none()))
+        || (tr != 2 && authority.is_some())
+        || (flags & 2 != 0 && flags & 4 != 0)
+        || flags >= 8
+        || !path.starts_with(b"/")
+        || !(path.starts_with(b"/h") || (method == b"GET" && flags < 2))
+    {
+        return Err(X::bad());
+    }
+    // outside what the clients of this harness can put on the wire
+    if sni.as_ref().map_or(false, |n| {
+        rustls::pki_types::ServerName::try_from(n.as_str()).map_or(true, |n| !matches!(n, rustls::pki_types::ServerName::DnsName(_)))
+            || n.ends_with('.')
+            || n.bytes().any(|c| c.is_ascii_uppercase())
+    }) || hosts.iter().any(|h| {
+        h.iter().any(|c| *c == b'\r' || *c == b'\n' || *c == 0)
+            || h.first().map_or(false, |c| *c == b' ' || *c == b'\t')
+            || h.last().map_or(false, |c| *c == b' ' || *c == b'\t')
+    }) || Method::from_bytes(&method).is_err()
+        || path.iter().any(|c| *c <= b' ' || *c >= 127)
+    {
+        return Err(ood());
+    }
+    Ok(WReq { tr, sni, v10, method, hosts, authority, path, flags })
+}
+
+/// The id of a host of a history is carried by its public directory `public-h<idx>`.
+fn whost_id(h: &Host) -> u128 {
+    h.options.get_public_data_dir().rsplit('h').next().and_then(|d| d.parse().ok()).expect("marker directory")
+}
+
+/// `clients`: hosts.wire2 — the second element is a list of histories, one per client; the clients run concurrently
+/// against the same server, each over its own connections.
+fn wire(x: &X, clients: bool) -> X {
     let l = match x.as_l() {
         Some(l) if l.len() == 2 => l,
         _ => return X::bad(),
     };
-    let cfgs = match parse_ops(&l[0]) {
+    let cfgs = match parse_whosts(&l[0]) {
         Ok(c) => c,
         Err(e) => return e,
     };
-    let mut reqs: Vec<(Vec<Vec<u8>>, Vec<u8>)> = Vec::new();
-    for r in match l[1].as_l() { Some(r) => r, None => return X::bad() } {
-        match r.as_l() {
-            Some([hh, X::B(p)]) => {
-                let hh = match hh.as_l() { Some(h) => h, None => return X::bad() };
-                let mut v = Vec::new();
-                for h in hh {
-                    match h.as_b() { Some(b) => v.push(b.to_vec()), None => return X::bad() }
-                }
-                reqs.push((v, p.clone()));
-            }
-            _ => return X::bad(),
+    let histories: Vec<&X> = if clients {
+        match l[1].as_l() {
+            Some(h) => h.iter().collect(),
+            None => return X::bad(),
         }
+    } else {
+        vec![&l[1]]
+    };
+    let mut all_reqs = Vec::new();
+    for h in histories {
+        let mut reqs = Vec::new();
+        for r in match h.as_l() { Some(r) => r, None => return X::bad() } {
+            match parse_wreq(r) {
+                Ok(r) => reqs.push(r),
+                Err(e) => return e,
+            }
+        }
+        all_reqs.push(reqs);
     }
-    // fixture tree: <dir>/h<idx>/public/{f.txt,g.txt}
-    let dir = format!(
-        "{}/kvh-c15-{}-{}/",
-        std::env::temp_dir().display(),
-        std::process::id(),
-        DIR_SEQ.fetch_add(1, Ordering::Relaxed)
-    );
+    // fixture tree: <dir>/h<idx>/public-h<idx>/{f.txt,g.txt}; a host that shares the path of host 0: <dir>/h0/public-h<idx>/..
+    let dir = format!("{}/kvh-c15-{}-{}/", std::env::temp_dir().display(), std::process::id(), DIR_SEQ.fetch_add(1, Ordering::Relaxed));
+    let path_of = |idx: usize| if cfgs[idx].1 & 2 != 0 { format!("{dir}h0") } else { format!("{dir}h{idx}") };
     for idx in 0..cfgs.len() {
-        let p = format!("{dir}h{idx}/public");
+        let p = format!("{}/public-h{idx}", path_of(idx));
         std::fs::create_dir_all(&p).expect("fixture dir");
         std::fs::write(format!("{p}/f.txt"), format!("file f of host {idx} h{idx}")).unwrap();
         std::fs::write(format!("{p}/g.txt"), format!("file g of host {idx} h{idx}")).unwrap();
     }
     let built = crate::guarded(|| {
-        let mut b = HostCollection::builder();
-        for (idx, cfg) in cfgs.iter().enumerate() {
+        let mut hosts: Vec<Host> = Vec::new();
+        for (idx, (cfg, opts)) in cfgs.iter().enumerate() {
             let mut ext = Extensions::empty();
             let counter = Arc::new(AtomicU64::new(0));
             ext.add_prepare_fn(
                 Box::new(|req, _| req.uri().path().starts_with("/h")),
-                prepare!(_req, host, _path, _addr, move |counter: Arc<AtomicU64>| {
+                prepare!(_req, host, _path, _addr, move |counter: Arc<AtomicU64>, idx: usize| {
                     let n = counter.fetch_add(1, Ordering::SeqCst) + 1;
-                    let body = format!("handler h{} n{}", host_id(host), n);
-                    FatResponse::cache(Response::new(Bytes::from(body.into_bytes())))
+                    // the closure says which host it was mounted on, the argument which host the request was handed to
+                    let body = format!("handler c{} h{} n{}", idx, whost_id(host), n);
+                    let mut resp = Response::new(Bytes::from(body.clone().into_bytes()));
+                    resp.headers_mut().insert("x-marker", HeaderValue::from_str(&body).unwrap());
+                    FatResponse::cache(resp)
                 }),
                 extensions::Id::new(0, "marker handler"),
             );
-            let h = mk_host(idx, cfg, &dir, ext);
+            let mut options = host::Options::default();
+            options.set_public_data_dir(format!("public-h{idx}"));
+            let mut h = if opts & 1 != 0 && idx > 0 {
+                let mut h = hosts[idx - 1].clone_without_extensions();
+                h.name = cfg.name.as_str().into();
+                h.alternative_names.clear();
+                h.path = path_of(idx).into();
+                h.extensions = ext;
+                h.options = options;
+                h
+            } else {
+                Host::unsecure(&cfg.name, path_of(idx), ext, options)
+            };
+            h.limiter.disable();
+            for a in &cfg.alts {
+                h.add_alternative_name(a);
+            }
+            *h.certificate.write().unwrap() = Some(tlsc::tls().key.clone());
+            hosts.push(h);
+        }
+        let mut b = HostCollection::builder();
+        for (h, (cfg, _)) in hosts.into_iter().zip(cfgs.iter()) {
             b = if cfg.default { b.default(h) } else { b.insert(h) };
         }
         COLL.with(|c| *c.borrow_mut() = Some(b.build()));
@@ -336,42 +756,40 @@ fn conn(x: &X) -> X {
         return built;
     }
     let coll = COLL.with(|c| c.borrow_mut().take().unwrap());
-    let desc = Arc::new(PortDescriptor::unsecure(8080, coll));
-    let out = rt().block_on(async move {
-        let mut client = Client { stream: None, desc };
-        let mut out = Vec::new();
-        for (hh, path) in &reqs {
-            let r = client.exchange(hh, path).await;
-            out.push(match r {
-                Err(e) => {
-                    client.stream = None;
-                    X::L(vec![X::N(93), X::b(format!("{:?}", e.kind()))])
+    let out: R<Vec<X>> = rt().block_on(async move {
+        let desc_plain = Arc::new(PortDescriptor::unsecure(8080, coll.clone()));
+        let desc_tls = Arc::new(PortDescriptor::new(8443, coll));
+        let mut tasks = Vec::new();
+        for reqs in all_reqs {
+            let mut client = Client { desc_plain: desc_plain.clone(), desc_tls: desc_tls.clone(), conns: Default::default() };
+            tasks.push(tokio::spawn(async move {
+                let mut out = Vec::new();
+                for r in &reqs {
+                    out.push(client.exchange(r).await?.x());
                 }
-                Ok(None) => X::ok(X::L(vec![X::N(0)])),
-                Ok(Some((409, _))) => X::ok(X::L(vec![X::N(409)])),
-                Ok(Some((200, body))) => {
-                    let s = String::from_utf8_lossy(&body).to_string();
-                    // "handler h<i> n<k>" | "file f of host <i> h<i>"
-                    let id = s.split(' ').find_map(|w| w.strip_prefix('h').and_then(|d| d.parse::<u128>().ok()));
-                    let n = s.split(' ').find_map(|w| w.strip_prefix('n').and_then(|d| d.parse::<u128>().ok())).unwrap_or(0);
-                    match id {
-                        Some(id) => X::ok(X::L(vec![X::N(200), X::N(id), X::N(n)])),
-                        None => X::L(vec![X::N(92), X::b(body)]),
-                    }
-                }
-                Ok(Some((st, body))) => X::L(vec![X::N(91), X::n(st), X::b(body)]),
-            });
+                Ok::<_, Trouble>(out)
+            }));
         }
-        out
+        let mut outs = Vec::new();
+        for t in tasks {
+            outs.push(X::L(t.await.map_err(trouble("client task"))??));
+        }
+        Ok(outs)
     });
     let _ = std::fs::remove_dir_all(&dir);
-    X::L(vec![X::N(0), X::L(out)])
+    match out {
+        Ok(mut outs) if !clients => X::L(vec![X::N(0), outs.remove(0)]),
+        Ok(outs) => X::L(vec![X::N(0), X::L(outs)]),
+        Err(Trouble(what)) if what == "OOD" => ood(),
+        Err(Trouble(what)) => X::L(vec![X::N(93), X::b(what)]),
+    }
 }
 
 pub fn dispatch(comp: &str, x: &X) -> Option<X> {
     Some(match comp {
         "hosts.lookup" | "hosts.lookup_v0" => lookup(x),
-        "hosts.conn" => conn(x),
+        "hosts.wire" => wire(x, false),
+        "hosts.wire2" => wire(x, true),
         _ => return None,
     })
 }
